@@ -9,12 +9,14 @@
 (*   Fin(MergeAll(<<Collect(P1), ..., Collect(Pn)>>))                       *)
 (*                           the implementation-shaped value: one collector*)
 (*                           per segment, pairwise merge, finalisation.    *)
-(*                           mode "ideal": thresholds and bucket limits    *)
-(*                           are applied to the merged counts;             *)
-(*                           mode "asbuilt": what the code does today      *)
-(*                           (known finding S12a: min_doc_count /          *)
-(*                           max_doc_count / size are applied by every     *)
-(*                           segment collector before the merge).          *)
+(*                           mode {} (ideal): thresholds, bucket limits    *)
+(*                           and top_hits offsets are applied to the       *)
+(*                           merged result; a mode containing              *)
+(*                           "S12a": min_doc_count / max_doc_count / size  *)
+(*                           are applied by every segment collector before *)
+(*                           the merge; "S12b": top_hits `from` is skipped *)
+(*                           by every segment collector and again by every *)
+(*                           merge (what the code does today).             *)
 (*                                                                         *)
 (* Numbers.  TLC has 32-bit integers and no reals.  Every numeric field   *)
 (* value is carried in quarters (i64 values times 4; f64 values of the    *)
@@ -159,9 +161,13 @@ LeafRef(D, M, a) ==
                       [t |-> "pct", n |-> Len(bag), min4 |-> BagMin(bag), max4 |-> BagMax(bag), percents |-> a.percents]
     [] a.t = "pctr" -> LET bag == BagOf(M, a) IN
                        [t |-> "pctr", n |-> Len(bag), le |-> [i \in DOMAIN a.values4 |-> CountLe(bag, a.values4[i])]]
-    [] a.t = "tophits" -> [t |-> "tophits", M |-> M, size |-> a.size, from |-> a.from, sort |-> a.sort]
+    [] a.t = "tophits" -> [t |-> "tophits", exact |-> FALSE, total |-> Cardinality(M), ids |-> <<>>,
+                           M |-> M, size |-> a.size, from |-> a.from, sort |-> a.sort]
 
 IsLeaf(a) == a.t \in {"stats", "estats", "vcount", "card", "pct", "pctr", "tophits"}
+
+(* documents in the total order of a sort plan without _score keys (ties by segment, then document) *)
+DocsInOrder(D, P, sort) == SortBy(P, LAMBDA x, y : CmpKeys(D, sort, x, 0, y, 0) < 0)
 
 -----------------------------------------------------------------------------
 (* The reference value.  Bucket aggregations yield                          *)
@@ -232,6 +238,7 @@ RefAll(D, M, aggs) == RefSubs(D, M, aggs)
 
 -----------------------------------------------------------------------------
 (* The implementation-shaped form.  Intermediates:                          *)
+(*   top_hits, "S12b"   [t = "itop", total, hits : documents in order]     *)
 (*   leaf kinds         [t = "idocs", docs]  (their merge is a union; the  *)
 (*                      value is taken over the union) - except stats,     *)
 (*                      which is merged the way the code does:             *)
@@ -251,26 +258,28 @@ Limited(X, Less(_, _), lim) == IF lim = NOLIMIT THEN X ELSE FirstOf(X, Less, lim
 Collect(D, P, a, mode) ==
   CASE a.t = "stats" -> LET s == StatsOf(BagOf(P, a)) IN
                         [t |-> "istats", count |-> s.count, min4 |-> s.min4, max4 |-> s.max4, sum4 |-> s.sum4]
+    [] a.t = "tophits" /\ "S12b" \in mode ->      \* TopHitsCollector::finish: skip `from`, take `size`, per segment
+         [t |-> "itop", total |-> Cardinality(P), hits |-> SubSeq(DocsInOrder(D, P, a.sort), a.from + 1, MinI(Cardinality(P), a.from + a.size))]
     [] IsLeaf(a) /\ a.t # "stats" -> [t |-> "idocs", docs |-> P]
     [] a.t = "terms" ->
          LET keys == UNION {KwKeys(d, a) : d \in P}
              bs == {IBkt(D, <<KStr(k)>>, {d \in P : k \in KwKeys(d, a)}, a, mode) : k \in keys}
          IN [t |-> "ib",
-             bs |-> IF mode = "asbuilt"      \* TermsCollector::finish: threshold and truncation per segment
+             bs |-> IF "S12a" \in mode      \* TermsCollector::finish: threshold and truncation per segment
                       THEN Limited({b \in bs : b.n >= a.mdc}, LAMBDA x, y : TermsLess(D, x, y), PerSegLimit(a))
                       ELSE bs]
     [] a.t = "rare" ->
          LET keys == UNION {KwKeys(d, a) : d \in P}
              bs == {IBkt(D, <<KStr(k)>>, {d \in P : k \in KwKeys(d, a)}, a, mode) : k \in keys}
          IN [t |-> "ib",
-             bs |-> IF mode = "asbuilt"      \* RareTermsCollector::finish
+             bs |-> IF "S12a" \in mode      \* RareTermsCollector::finish
                       THEN Limited({b \in bs : b.n <= a.maxdc}, LAMBDA x, y : RareLess(D, x, y),
                                    IF a.hassize THEN a.size ELSE NOLIMIT)
                       ELSE bs]
     [] a.t = "hist" ->
          LET keys == UNION {HistKeys(d, a) : d \in P}
              bs == {IBkt(D, <<KNum(k)>>, {d \in P : k \in HistKeys(d, a)}, a, mode) : k \in keys}
-         IN [t |-> "ib", bs |-> IF mode = "asbuilt" THEN {b \in bs : b.n >= HistMdc(a)} ELSE bs]
+         IN [t |-> "ib", bs |-> IF "S12a" \in mode THEN {b \in bs : b.n >= HistMdc(a)} ELSE bs]
     [] a.t = "comp" ->
          LET keys == UNION {CompKeys(d, a.sources) : d \in P} IN
          [t |-> "ib", bs |-> {IBkt(D, k, {d \in P : k \in CompKeys(d, a.sources)}, a, mode) : k \in keys}]
@@ -295,6 +304,10 @@ MergeSets(D, a, X, Y, mode) ==
 
 MergeI(D, a, x, y, mode) ==
   CASE x.t = "idocs" -> [t |-> "idocs", docs |-> x.docs \cup y.docs]
+    [] x.t = "itop" ->                           \* merge_top_hits: best size + from of both lists, skip `from` again
+         LET all == DocsInOrder(D, SeqToSet(x.hits) \cup SeqToSet(y.hits), a.sort)
+             best == Prefix(all, a.size + a.from)
+         IN [t |-> "itop", total |-> x.total + y.total, hits |-> SubSeq(best, a.from + 1, MinI(Len(best), a.from + a.size))]
     [] x.t = "istats" ->                         \* merge_stats
          IF x.count = 0 THEN y ELSE IF y.count = 0 THEN x
          ELSE [t |-> "istats", count |-> x.count + y.count, min4 |-> MinI(x.min4, y.min4),
@@ -304,7 +317,7 @@ MergeI(D, a, x, y, mode) ==
     [] x.t = "ib" ->
          LET m == MergeSets(D, a, x.bs, y.bs, mode) IN
          [t |-> "ib",
-          bs |-> IF mode # "asbuilt" THEN m
+          bs |-> IF "S12a" \notin mode THEN m
                  ELSE IF a.t = "terms"            \* merge_intermediate_in_place: truncate to shard_size only
                         THEN Limited(m, LAMBDA p, q : TermsLess(D, p, q), IF a.hasshard THEN a.shard ELSE NOLIMIT)
                  ELSE IF a.t = "rare"
@@ -323,27 +336,29 @@ FinBkt(D, a, b, mode) == [key |-> b.key, n |-> b.n, subs |-> FinSubs(D, a.subs, 
 
 Fin(D, a, x, mode) ==
   CASE x.t = "idocs" -> LeafRef(D, x.docs, a)
+    [] x.t = "itop" -> [t |-> "tophits", exact |-> TRUE, total |-> x.total, ids |-> [i \in DOMAIN x.hits |-> x.hits[i].id],
+                        M |-> {}, size |-> a.size, from |-> a.from, sort |-> a.sort]
     [] x.t = "istats" -> [t |-> "stats", count |-> x.count, min4 |-> x.min4, max4 |-> x.max4, sum4 |-> x.sum4]
     [] x.t = "ifilter" -> [t |-> "filter", n |-> x.n, subs |-> FinSubs(D, a.subs, x.subs, mode)]
     [] x.t = "iseq" -> Buckets("exact", [i \in DOMAIN x.bs |-> FinBkt(D, a, x.bs[i], mode)], NOLIMIT)
     [] x.t = "ib" ->
          LET fs == {FinBkt(D, a, b, mode) : b \in x.bs} IN
          CASE a.t = "terms" ->
-                IF mode = "asbuilt"      \* finalize_response: sort, truncate to size; no threshold any more
+                IF "S12a" \in mode      \* finalize_response: sort, truncate to size; no threshold any more
                   THEN LET lim == IF a.hassize THEN a.size ELSE IF a.hasshard THEN a.shard ELSE NOLIMIT IN
                        Buckets("terms", SortBy(Limited(fs, LAMBDA p, q : TermsLess(D, p, q), lim),
                                                LAMBDA p, q : TermsLess(D, p, q)), NOLIMIT)
                   ELSE Buckets("terms", SortBy({b \in fs : b.n >= a.mdc}, LAMBDA p, q : TermsLess(D, p, q)),
                                IF a.hassize THEN a.size ELSE NOLIMIT)
            [] a.t = "rare" ->
-                IF mode = "asbuilt"
+                IF "S12a" \in mode
                   THEN Buckets("rare", SortBy(Limited(fs, LAMBDA p, q : RareLess(D, p, q),
                                                       IF a.hassize THEN a.size ELSE NOLIMIT),
                                               LAMBDA p, q : RareLess(D, p, q)), NOLIMIT)
                   ELSE Buckets("rare", SortBy({b \in fs : b.n <= a.maxdc}, LAMBDA p, q : RareLess(D, p, q)),
                                IF a.hassize THEN a.size ELSE NOLIMIT)
            [] a.t = "hist" ->
-                LET keep == IF mode = "asbuilt" THEN fs ELSE {b \in fs : b.n >= MaxI(1, HistMdc(a))} IN
+                LET keep == IF "S12a" \in mode THEN fs ELSE {b \in fs : b.n >= MaxI(1, HistMdc(a))} IN
                 [Buckets("hist", SortBy(keep, LAMBDA p, q : ByKey(D, p, q)), NOLIMIT)
                    EXCEPT !.allow0 = (HistMdc(a) = 0), !.must0 = HistMust0(a)]
            [] a.t = "comp" ->
@@ -408,6 +423,7 @@ PctrAgree(ref, obs) ==
 (* bucket, in the order of the sort plan (ties by segment order are layout  *)
 (* dependent by definition and not asserted), none better is left out.      *)
 TopHitsAgree(D, ref, obs) ==
+  IF ref.exact THEN obs.total = ref.total /\ obs.ids = ref.ids ELSE
   LET ids == obs.ids
       n == Len(ids)
       M == ref.M
